@@ -57,6 +57,13 @@ pub enum Cmd {
         period: Option<u64>,
     },
     ReadTime,
+    /// connect, from the driver and through a detached clone of `outs[out]` of
+    /// `model`, one more connection (C14: clones share one connection list)
+    Connect {
+        model: u16,
+        out: u8,
+        conn: Conn,
+    },
 }
 
 impl Cmd {
@@ -133,6 +140,7 @@ pub fn run_scase(c: &SCase) -> SObs {
     install_picker(&c.exec);
     let opts = BuildOpts {
         clock: Some(c.clock.clone()),
+        keep_out_clones: c.cmds.iter().any(|x| matches!(x, Cmd::Connect { .. })),
         ..Default::default()
     };
     let built = build(&c.bench, &c.exec, &opts, c.start);
@@ -313,6 +321,26 @@ pub fn run_scase(c: &SCase) -> SObs {
                 o.err = res_kind(&w.sim.process(a));
             }
             Cmd::ReadTime => {}
+            Cmd::Connect { model, out, conn } => {
+                let orphan_addrs: Vec<_> = w.orphans.iter().map(|m| m.address()).collect();
+                let dropped = {
+                    let mb: nexosim::simulation::Mailbox<Node> = nexosim::simulation::Mailbox::new();
+                    mb.address()
+                };
+                let t = Targets {
+                    addrs: &w.addrs,
+                    orphan_addrs: &orphan_addrs,
+                    dropped: &dropped,
+                    sinks: &w.sinks,
+                };
+                if let Some(o) = w
+                    .out_clones
+                    .get_mut(*model as usize)
+                    .and_then(|v| v.get_mut(*out as usize))
+                {
+                    connect_output(o, conn, &t);
+                }
+            }
         }));
         if r.is_err() {
             o.panicked = true;
